@@ -24,7 +24,9 @@ NRec == Len(Rec)
 
 VARIABLE l
 
-Answers(ev) == ev.s /\ ev.m
+\* the context answers about what did load - and only about that: a name whose definition failed or was never
+\* given must not answer (ev.p: some such name answered)
+Answers(ev) == ev.s /\ ev.m /\ ~ev.p
 LoadOk(ev) == ev.o = "ok" /\ ev.n = 0 /\ ~ev.c /\ Answers(ev)
 LoadErr(ev) == ev.o = "err" /\ ev.n >= 1 /\ ~ev.e /\ (ev.c => ev.r) /\ Answers(ev)
 
